@@ -14,6 +14,9 @@ CHECKS = {
  "C08": ("exploration", "A verif build carries an in-process monitor that, at every reply write, compares the sending goroutine's last logged command sequence number with the flushed sequence number; workloads of 2-16 concurrently writing connections run under perturbation patterns (sleep/yield at the four legal preemption points of the pre-write path) that manufacture the flush/clear/test interleavings on demand; a hook-free second oracle kills the process at PRNG instants and requires every acknowledged token in appendonly.aof.",
          "Ownership of a logged command by the goroutine that executes it; kill -9 keeps data handed to write(2). No fsync claim.",
          "runtime monitoring: in-process assertion at the send hook under injected schedule perturbations + kill-9 acknowledged-token oracle", "4/C08"),
+ "C09": ("fault_enumeration", "Real servers run AOFSHRINK on generated datasets sized on the scan-batch boundaries; verif gate points park the rewrite after every key batch / id batch / before the swap while a scripted writer issues every write command against scanned, in-scan and unscanned keys; named crash points kill the process at each step of the rewrite and of the rename sequence (with and without concurrent token writers); oracles: live dump before == after the shrink, dump after restart == live dump, TTLs not shortened beyond rounding, every acknowledged token recovered after a crash.",
+         "Shrink completion read from the hook arrival counter; SIGKILL keeps the page cache; known finding rename-during-shrink is matched only when the difference is confined to collections named in an applied RENAME.",
+         "runtime monitoring with fault injection: gate/crash points inside the rewrite, dump differential across shrink/restart", "4/C09"),
 }
 def main():
     old = json.load(open('/verif/MANIFEST.json'))
